@@ -238,6 +238,27 @@ def dynamic_part(res, ctx, names):
                     res.violation('c17-twin-rendering', f'{base} / {name} reported by one record with qualifier {q} and words '
                                   f'{[hex(x) for x in words]}: {a} vs {b}', {'name': name, 'start': words, 'end': words})
                     break
+        # both twins open on ONE thread at the same time, their windows overlapping without nesting (START X, START X_nocancel,
+        # END X, END X_nocancel and the other way round - what a capture with a wrapped buffer or merged records looks like):
+        # each is still decoded, each as it is alone
+        for order in ('base first', 'twin first'):
+            start, start2 = domain.gen_words(rng, base, 'S'), domain.gen_words(rng, base, 'S')
+            end = [0] + domain.gen_words(rng, base, 'E')[1:]
+            first, second = (base, name) if order == 'base first' else (name, base)
+            items = [H.A(first, H.START, start), H.A(second, H.START, start2), H.A(first, H.END, end), H.A(second, H.END, end)]
+            try:
+                parser = ev.new_parser()
+                got = [str(t) for t in (parser.feed(e) for e in H.materialize(H.on_thread(6, items))) if t is not None]
+                alone = render(first, start, end) + render(second, start2, end)
+            except Exception as x:
+                res.violation(f'c17-raises-{core.exc_name(x)}', f'{base} / {name} overlapping on one thread: {x!r}', {'name': name})
+                break
+            res.case((name, 'overlap', order))
+            res.count('twin_windows_overlapping_on_one_thread')
+            if got != alone:
+                res.violation('c17-twin-rendering', f'{base} and {name} open at the same time on one thread ({order}, closed in '
+                              f'opening order): decoded {got}, each alone decodes {alone}', {'name': name, 'start': start, 'end': end})
+                break
         # companion records the kernel logs INSIDE the call under a name that extends the call's name (pread_extended_info,
         # mmap_extended_info ...: the bundled table lists them; the kernel logs them under the BASE call's number for the
         # non-cancellable variant too), their words taken from the call's own START words in every arrangement plus a few
